@@ -115,6 +115,9 @@ CONTENTS: dict[str, Any] = {
     # two more members of the classes the property names ("control characters", "surrogates")
     "del_x7f": "\x7f",
     "lone_surrogate": "\ud800",
+    # valid UTF-8 text outside YAML's printable set (c-printable ends at U+FFFD): must be escaped by a hand-written emitter
+    "nonchar_ffff": "\uffff",
+    "nonchar_fffe": "\ufffe",
 }
 SLOTS = [
     "url_path", "url_query", "req_header", "resp_header", "req_header_name", "resp_header_name", "req_body", "resp_body", "reason",
